@@ -300,8 +300,13 @@ func tail(s []string, n int) []string {
 func shrinkViolation(v *Violation, fn RunFn, cfg *Config, budget int) {
 	runs := 0
 	var best *Outcome
+	// minimisation is also bounded in wall time (violations whose runs are long — a pool that
+	// respawns without end — would otherwise eat the watchdog budget of the whole batch); the
+	// bound only decides how small the replay file gets, never whether a violation is reported
+	wall := time.Duration(cfg.Int("shrinkwall", 45)) * time.Second
+	began := time.Now()
 	test := func(dec []uint32) ([]uint32, bool) {
-		if runs >= budget {
+		if runs >= budget || time.Since(began) > wall {
 			return nil, false
 		}
 		runs++
